@@ -8,6 +8,7 @@
   halfword.
 """
 import importlib
+import warnings
 import struct
 
 from harness import common, encsweep
@@ -47,9 +48,9 @@ def render(name, ops, k):
     seps = [' ', ', ', ',', '\t', '  ,  ']
     h = (k * 2654435761) & 0xffffffff          # spelling choices independent of the position of the mnemonic in its table
     line = name.upper() if h % 11 == 0 else name.capitalize() if h % 11 == 5 else name
-    if len(ops) == 3 and ops[2][0] == 'i' and (h >> 8) % 3 == 1 and name in ('lb', 'lh', 'lw', 'lbu', 'lhu', 'jalr', 'sb', 'sh', 'sw'):
+    if len(ops) == 3 and ops[2][0] == 'i' and (h >> 8) % 3 == 1 and name in ('lb', 'lh', 'lw', 'lbu', 'lhu', 'jalr', 'sb', 'sh', 'sw', 'c.lw', 'c.sw'):
         # the documented alternative spelling imm(base): loads / jalr `rd, imm(rs1)`, stores `rs2, imm(rs1)`
-        data, base = (toks[0], toks[1]) if name[0] != 's' else (toks[1], toks[0])
+        data, base = (toks[0], toks[1]) if name.split('.')[-1][0] != 's' else (toks[1], toks[0])
         return '%s %s%s%s(%s)' % (line, data, seps[k % len(seps)], toks[2], base) + ('   # c' if k % 7 == 0 else '')
     for i, t in enumerate(toks):
         line += (' ' if i == 0 else seps[(k + i) % len(seps)]) + t
@@ -234,6 +235,50 @@ def run(prop, tier, rep):
         n += run_nonint(asm, rep)
     if prop == 'C02':
         n += reverse_halfwords(asm, rep)
+    if prop in ('C01', 'C02'):
+        n += run_named_base(asm, rep, prop)
+    return n
+
+
+def run_named_base(asm, rep, prop):
+    """`imm(base)` written after a mnemonic: whatever is accepted must use the register the source NAMED as the base.
+    For an instruction with an explicit base register the line must mean `mnemonic data, base, imm`; for an sp-relative
+    one it can only be accepted with sp as the base; an instruction without any base register has no halfword / word
+    that holds the named register, so accepting the line would emit an access the source did not write."""
+    if prop == 'C02':
+        tmpl = [('c.lwsp', 'x1', 2, 'c.lwsp x1, {imm}'), ('c.lwsp', 'a5', 2, 'c.lwsp a5, {imm}'), ('c.swsp', 'x5', 2, 'c.swsp x5, {imm}'),
+                ('c.swsp', 's1', 2, 'c.swsp s1, {imm}'), ('c.lw', 'x9', None, 'c.lw x9, {base}, {imm}'), ('c.sw', 'x10', None, 'c.sw {base}, x10, {imm}'),
+                ('c.li', 'x9', -1, None), ('c.lui', 'x9', -1, None), ('c.addi', 'x9', -1, None), ('c.addi4spn', 'x9', 2, 'c.addi4spn x9, {imm}'),
+                ('c.slli', 'x9', -1, None)]
+        imms = [0, 4, 8, 16, 64, 124]
+    else:
+        tmpl = [('lw', 'x5', None, 'lw x5, {base}, {imm}'), ('sw', 'x5', None, 'sw {base}, x5, {imm}'), ('jalr', 'x1', None, 'jalr x1, {base}, {imm}'),
+                ('lbu', 'x7', None, 'lbu x7, {base}, {imm}'), ('lui', 'x5', -1, None), ('auipc', 'x5', -1, None), ('jal', 'x1', -1, None),
+                ('addi', 'x5', None, 'addi x5, {base}, {imm}')]
+        imms = [0, 4, 8, -4, 2044]
+    bases = [('sp', 2), ('x2', 2), ('x9', 9), ('a0', 10), ('x8', 8), ('s1', 9), ('x15', 15), ('x0', 0), ('ra', 1), ('t6', 31)]
+    n = 0
+    warnings.simplefilter('ignore', SyntaxWarning)      # eval('4 ( x9 )') inside the assembler warns before it fails
+    for name, data, implicit, canon in tmpl:
+        for imm in imms:
+            for bname, bnum in bases:
+                for line in ('{} {}, {}({})'.format(name, data, imm, bname), '{} {} {}({})'.format(name, data, imm, bname)):
+                    st, b = assemble_line(asm, line)
+                    rep.evaluations += 1
+                    n += 1
+                    rep.count('text_named_base_' + st.split()[0])
+                    if st != 'ok':
+                        continue
+                    case = dict(line=line, status=st, bytes=b.hex(), named_base=bname)
+                    if implicit == -1 or (implicit is not None and bnum != implicit):
+                        rep.violation('{!r} names base register {} but assembled to {}, an instruction that {}'.format(
+                            line, bname, b.hex(), 'has no base register' if implicit == -1 else 'addresses relative to x%d' % implicit),
+                            dict(case=case, text_line=line))
+                        continue
+                    st2, b2 = assemble_line(asm, canon.format(base=bname, imm=imm))
+                    if st2 != 'ok' or b2 != b:
+                        rep.violation('{!r} assembled to {} but {!r} gives {}'.format(line, b.hex(), canon.format(base=bname, imm=imm),
+                                                                                       b2.hex() if b2 else st2), dict(case=case, text_line=line))
     return n
 
 
